@@ -72,7 +72,22 @@ func mutantsFor(prop string) []Mutant {
 		{"C09", "zero-length read reaches the contents", []Edit{{"libvore/files/reader.go", "\t// nothing to read; asking the contents for zero bytes at the end of the input reports io.EOF\n\tif length == 0 {\n\t\treturn \"\"\n\t}\n", ""}}},
 		{"C09", "reader not closed in RunFiles", []Edit{{"libvore/engine/engine.go", "\t\t\t\t// whoever opens the reader closes it, for find commands as well\n\t\t\t\treader.Close()\n", ""}}},
 		{"C09", "new explicit panic in a handler", []Edit{{sr, "func matchJump(i bytecode.Jump, current_state *SearchEngineState) *SearchEngineState {\n", "func matchJump(i bytecode.Jump, current_state *SearchEngineState) *SearchEngineState {\n\tif i.NewProgramCounter < 0 {\n\t\tpanic(\"negative jump\")\n\t}\n"}}},
-		{"C10", "zero-width check bypassed", []Edit{{sr, "\t\tif next_state.CHECKZEROMATCHLOOP() {", "\t\tif false && next_state.CHECKZEROMATCHLOOP() {"}}},
+		{"C10", "zero-width check bypassed", []Edit{{sr, "\t\tif next_state.GETITERATIONSTEP() >= i.MinLoops && next_state.CHECKZEROMATCHLOOP() {", "\t\tif false && next_state.CHECKZEROMATCHLOOP() {"}}},
+		{"C10", "zero-width check skipped for every iteration above the minimum", []Edit{{sr, "\t\tif next_state.GETITERATIONSTEP() >= i.MinLoops && next_state.CHECKZEROMATCHLOOP() {", "\t\tif next_state.GETITERATIONSTEP() < i.MinLoops && next_state.CHECKZEROMATCHLOOP() {"}}},
+		{"C10", "process loop keeps running after a return", []Edit{{ex, "\t\tif expr_state.status == RETURNING || expr_state.status == BREAKLOOP {", "\t\tif expr_state.status == BREAKLOOP {"}}},
+		{"C10", "negated letter class succeeds on an empty read", []Edit{{se, "\tvalue := es.READ(1)\n\tif value == \"\" {\n\t\tes.BACKTRACK()\n\t\treturn\n\t}\n\tif (\"a\" <= value", "\tvalue := es.READ(1)\n\tif (\"a\" <= value"}}},
+		{"C01", "zero-width cut removes mandatory iterations", []Edit{{sr, "\t\tif next_state.GETITERATIONSTEP() >= i.MinLoops && next_state.CHECKZEROMATCHLOOP() {", "\t\tif next_state.CHECKZEROMATCHLOOP() {"}}},
+		{"C01", "zero-width cut allowed one iteration early", []Edit{{sr, "\t\tif next_state.GETITERATIONSTEP() >= i.MinLoops && next_state.CHECKZEROMATCHLOOP() {", "\t\tif next_state.GETITERATIONSTEP()+1 >= i.MinLoops && next_state.CHECKZEROMATCHLOOP() {"}}},
+		{"C01", "negated range succeeds on an empty read", []Edit{{se, "\t\tif value == \"\" {\n\t\t\t// nothing left to read: no range, negated or not, matches the end of the input\n\t\t\tcontinue\n\t\t}\n", ""}}},
+		{"C02", "restore forgets the line counter", []Edit{{se, "\tes.currentLineNum = value.currentLineNum\n", ""}}},
+		{"C02", "binding filed under the top loop's iteration", []Edit{{se, "\t\tindex := strconv.Itoa(lowestScope.iterationStep)", "\t\tindex := strconv.Itoa(es.GETITERATIONSTEP())"}}},
+		{"C03", "match numbered by the queue size", []Edit{{sr, "currentState.MakeMatch(matchNumber + 1)", "currentState.MakeMatch(int(matches.Size()) + 1)"}}},
+		{"C05", "transform sees the position in the window as matchNumber", []Edit{{sr, "env[\"matchNumber\"] = ProcessValueNumber{next_state.match.MatchNumber}", "env[\"matchNumber\"] = ProcessValueNumber{next_state.programCounter}"}}},
+		{"C09", "whole-word classes admitted as list members", []Edit{{ps, "t == LOWER || t == LETTER\n}", "t == LOWER || t == LETTER || t == WHOLE\n}"}}},
+		{"C08", "parse error leaves the parser lock held", []Edit{{ps, "\tcapture_group_lock.Lock()\n\tdefer capture_group_lock.Unlock()\n", "\tcapture_group_lock.Lock()\n"}}},
+		{"C14", "regexp literal byte converted as a code point", []Edit{{rx, "\t\tstart = &AstString{false, regexp[index : index+size], false}", "\t\tstart = &AstString{false, string(regexp[index]), false}"}}},
+		{"C16", "layout branch takes the blank after a backslash", []Edit{{lx, "\t\t} else if unicode.IsSpace(ch) && current_state != SSTRING_D_ESCAPE && current_state != SSTRING_S_ESCAPE {", "\t\t} else if unicode.IsSpace(ch) {"}}},
+		{"C20", "GetFileList consumes its own pattern", []Edit{{"libvore/files/path.go", "func (path *Path) GetFileList(currentDirectory string) []string {\n", "func (path *Path) GetFileList(currentDirectory string) []string {\n\tif len(path.entries) > 100 {\n\t\tpath.entries = path.entries[1:]\n\t}\n"}}},
 		{"C10", "matchEndNotIn always advances", []Edit{{sr, "\tif cfo == next_state.currentFileOffset {\n\t\tnext_state.BACKTRACK()\n\t} else {\n\t\tnext_state.NEXT()\n\t}", "\t_ = cfo\n\tnext_state.NEXT()"}}},
 		{"C10", "MATCHANY forgets NEXT", []Edit{{se, "\t} else {\n\t\tes.CONSUME(1)\n\t\tes.NEXT()\n\t}\n}\n\nfunc (es *SearchEngineState) MATCHRANGE", "\t} else {\n\t\tes.CONSUME(1)\n\t}\n}\n\nfunc (es *SearchEngineState) MATCHRANGE"}}},
 		{"C10", "loop identity ignores the call level", []Edit{{se, " || top.callLevel != int(es.callStack.Size()) {", " {"}}},
